@@ -1590,6 +1590,8 @@ def check_seq_to_bytes(ctx):
                 bad.append(f'{p.kind}: {u(p.stmt)[:50] if p.stmt is not None else "falls off the end"}')
                 continue
             for v, _at, _g in lift(p.value, p.atoms, p.guards):
+                if not all(guard_on(t, mname) in (None, pol) for (t, pol) in _g):
+                    continue        # an arm of a conditional expression this type cannot take
                 vals.append(u(v))
                 if mname in want_conv and u(v) not in want_conv[mname]:
                     bad.append(u(v))
